@@ -7,7 +7,7 @@ import enum
 import z3
 
 from .sx_base import GenError, PathEnd, RaiseSig
-from .theory import Int
+from .theory import NONE_REF, Int
 from .values import (F, FAll, FAnd, FEx, FImp, FOr, FT, Sym, VChoice, VExc, VFunc, VList, VModule, VObj,
                      VOpaque, VOpt, VRefMap, VSet, VUnique)
 
@@ -330,6 +330,8 @@ class ExprMixin:
             o = b if a is None else a
             if isinstance(o, VOpt):
                 return self.wrap(o.is_none, "bool")
+            if isinstance(o, Sym) and o.k == "ref" and o.nullable:
+                return self.wrap(o.t == NONE_REF, "bool")
             return False
         if isinstance(a, VOpt) or isinstance(b, VOpt):
             if isinstance(a, VOpt) and isinstance(b, VOpt):
@@ -445,6 +447,9 @@ class ExprMixin:
         if isinstance(base, type) and issubclass(base, enum.Enum):
             return getattr(base, attr)
         if isinstance(base, Sym) and base.k == "ref":
+            if base.nullable and not self.spec:
+                self.prove("noraise", "not_none@attr ." + attr, base.t != NONE_REF, src=attr)
+                self.pc.append(base.t != NONE_REF)
             return self.unit.ref_attr(self, base, attr)
         if isinstance(base, VExc):
             return self.fresh("str", "exc_" + attr)
@@ -526,10 +531,16 @@ class ExprMixin:
 
     def list_get(self, lst: VList, i):
         i = self.z(i) if not z3.is_expr(i) else i
+
+        def sel(a):
+            t = z3.Select(a, i)
+            # beta-reduce a read of a lambda-defined list (concatenation, map): exposes the shifted index (i - n) of the
+            # underlying lists as a term, so that hypotheses about them are instantiated there
+            return z3.simplify(t) if z3.is_quantifier(a) and a.is_lambda() else t
         if isinstance(lst.elem, tuple):
-            return tuple(self.wrap(z3.Select(a, i), self.elem_kind(e), self.elem_cls(e))
+            return tuple(self.wrap(sel(a), self.elem_kind(e), self.elem_cls(e))
                          for a, e in zip(lst.arr, lst.elem))
-        return self.wrap(z3.Select(lst.arr, i), self.elem_kind(lst.elem), self.elem_cls(lst.elem) or lst.cls)
+        return self.wrap(sel(lst.arr), self.elem_kind(lst.elem), self.elem_cls(lst.elem) or lst.cls)
 
     @staticmethod
     def elem_kind(e):
